@@ -46,6 +46,31 @@ CLAIMED = {
    text="(1) Every behaviour of Lexer.tla's transition cover whose stream is fully prescribed is concretised and lexed by the real scanner: extents, free-floating classification and attachment order must match exactly. (2) Traces (one event per token/free-floating token with offsets, logged mode and stack, warning count, byte shape) of generated, corpus and random inputs under a >= 7.3 and a < 7.3 version are validated by TLC against LexerTrace.tla: contiguous tokens, a byte skipped only under a reported warning, no empty token, and the token-level mode relation; corrupted copies must be rejected (binding self-test). (3) Every tree returned for these inputs and for CRLF renderings is checked by the worker: value = source slice, 1-based lines by the LF/CRLF/CR rule, increasing disjoint offsets; with zero errors full tiling, free-floating classes, leaf value = token text.",
    note="Trusted: lexicon spellings + conservative Fuses filter; shape computation in vf/lextrace.py; the independent line rule in analyze.go. Mode-relation rejections that are not tiling problems are reported as notes, not verdicts. One known finding (empty heredoc under >= 7.3).",
    design="5 (C04), 3.3, 4.2"),
+ "C02": dict(
+   technique="TLA+ reference syntax (Syntax.tla) + derivation machine (SyntaxGen.tla, TLC simulation/enumeration) generate programs x trivia layouts; replay on the real parser + printer with the identity oracle; Lexer.tla transition-cover inputs and scaled multi-block programs added",
+   text="Every derivation of SyntaxGen.tla (sampled to depth 3, both families; every token slot of every covered construct) is rendered under 4 (quick) / 10 (thorough) trivia layouts, parsed under 2+ versions and printed: with zero reported errors the printed bytes must equal the source. The same oracle is applied to the error-free inputs of Lexer.tla's transition cover (shebang, open/close tags, inline HTML, halt-compiler payload, heredoc forms), to the corpus and to scaled programs of > 1024 tokens/positions (several allocation blocks). Right level: the property is an identity over all accepted sources; the specification supplies a systematic input space instead of 188 fixed snippets.",
+   note="Trusted: expander and renderer (vf/syntax.py), lexicon. Reference grammar covers the constructs listed in evidence (variants_*); constructs not yet in Syntax.tla are exercised only through the corpus.",
+   design="5 (C02), 3.4"),
+ "C03": dict(
+   technique="TLA+ reference syntax Syntax.tla (node-kind variants, PHP's documented precedence table, stratified child levels) + SyntaxGen.tla (TLC: exhaustive for expression statements up to a derivation-size bound, simulation for whole programs); each derivation expanded to source + the prescribed tree and replayed on the real parser (tree comparison); token ids of Lexer.tla's cover",
+   text="The specification prescribes exactly one tree per generated program (stratified precedence: left/right/non-assoc child levels, dangling-else via the 'closed' statement category, include/require lowest). The real parser must accept each program of its family with zero errors under several versions and return that tree: kinds, child roles and order, list lengths, separators, values verbatim, tokens in the right slots. TLC enumerates every expression statement whose derivation has <= 6 (quick) / 7 (thorough) choices (all operator pairs); PHP 7-only variants must be rejected under 5.6; keyword/cast case variants and number classification are checked through the prescribed token ids of Lexer.tla.",
+   note="Trusted: my transcription of PHP's grammar and precedence table into Syntax.tla (the tree PHP prescribes), the expander, the comparer (cmptree.go). Coverage is that of the variant table (listed in evidence with never-generated variants).",
+   design="5 (C03), 3.4"),
+ "C05": dict(
+   technique="expected node spans derived from Syntax.tla yields (first/last token of each variant instance, documented conventions) replayed against the real tree for SyntaxGen.tla derivations; structural span rule on every error-free tree",
+   text="For each generated program the specification gives every node its first and last token; the rendered offsets (and lines by the LF/CRLF/CR rule) are compared with the recorded StartPos/EndPos/StartLine/EndLine of the real tree under 3 layouts incl. CRLF. Additionally every error-free tree (corpus, Lexer.tla cases, CRLF/CR renderings) is checked: span = extent of the subtree's positioned tokens with the four conventions, children within parents, siblings ordered and disjoint. Deviations pinned by existing tests are known findings matched by (kind, relation).",
+   note="Trusted: the span rule (vf/syntax.py _span, analyze.go checkSpans), conventions as documented in the property (+ the -1 convention applied to a catch-less try). Two known findings.",
+   design="5 (C05), 3.4, 3.5"),
+ "C08": dict(
+   technique="SyntaxGen.tla derivations rendered under every trivia recipe (metamorphic replay on the real parser: equal structural projection across renderings) + TLC-checked TriviaTransparent on Lexer.tla",
+   text="Each derivation is rendered minimally and with each of 14 recipes (space, tab, LF, CRLF, lone CR, blank lines, block/doc/line/hash comments, /**/, mixtures) in all gaps, with a random mixture, and (thorough) with each recipe in each single gap; all renderings must parse without errors and have the same structural fingerprint (kinds, roles, values), which C03 ties to the prescribed tree. Gaps where PHP forbids trivia are marked in Syntax.tla (glue).",
+   note="Trusted: gap classification and Fuses rule of the renderer. One known finding (lone CR between tokens). Special gaps (after ->, yield from, halt compiler) are covered only as far as the variants exist.",
+   design="5 (C08), 3.3, 3.4"),
+ "C10": dict(
+   technique="SyntaxGen.tla derivations restricted to variants marked family 'both' in Syntax.tla, replayed on the PHP 5 and the PHP 7 parser; full fingerprint equality + comparison with the prescribed tree",
+   text="Programs of the common subset (PHP 7-only syntax and uniform-variable-syntax regroupings excluded by family marks in the specification) are parsed under 5.x/7.x version pairs under several layouts; the full fingerprints (kinds, nesting, values, token texts/offsets, free-floating content, positions) must be equal; the deviating side is identified by comparison with the tree Syntax.tla prescribes.",
+   note="Trusted: family marks in Syntax.tla. One known finding (PHP 5 goto label span).",
+   design="5 (C10), 3.4"),
 }
 
 REASONS_PENDING = "check not built yet in this round; see DESIGN.md section 9 for the construction order"
